@@ -26,7 +26,7 @@ from geometer.exceptions import TensorComputationError
 from . import sched, seam, snapshot, world as W
 
 MAX_ELEMS = 1 << 18
-NARROW_CAP = {"b": 1, "i8": 127, "i32": 2 ** 31 - 1}   # largest magnitude a narrow node dtype can hold
+NARROW_CAP = {"b": 1, "i8": 127, "i32": 2 ** 31 - 1, "u8": 255, "i16": 2 ** 15 - 1, "f32": 2 ** 24}   # largest magnitude a narrow node dtype can hold
 
 
 # ---------------------------------------------------------------------------------------------------------------------
@@ -270,6 +270,17 @@ def gen_tensor_recipe(rng, cfg, slot) -> tuple[dict, MTensor]:
                 kw["dt"] = "i32"
                 rec = {"slot": slot, "k": "tensor", "a": [re], "kw": kw}
                 return rec, MTensor(arr, cov, con, int8=NARROW_CAP["i32"])
+            elif c2 < 0.42:
+                # more narrow dtypes (image data, fixed point, single precision). The cap is what the dtype holds
+                # exactly; mixed narrow dtypes promote to something at least as wide as the widest of them, so
+                # judging by the largest cap is conservative
+                kw["dt"] = rng.choice(["u8", "i16", "f32"])
+                if kw["dt"] == "u8":
+                    arr = np.abs(arr) * rng.choice([1, 20, 60])
+                elif kw["dt"] == "i16":
+                    arr = arr * rng.choice([1, 50, 100])
+                rec = {"slot": slot, "k": "tensor", "a": [arr.tolist()], "kw": kw}
+                return rec, MTensor(arr, cov, con, int8=NARROW_CAP[kw["dt"]])
             if r >= 1 and rng.random() < 0.3:
                 kw["layout"] = rng.choice(["F", "T", "S"])
         rec = {"slot": slot, "k": "tensor", "a": [re], "kw": kw}
